@@ -1,14 +1,4 @@
-mod exec;
-mod exittrap;
-mod gen;
-mod minimize;
-mod props;
-mod refstyle;
-mod rows;
-mod runner;
-mod tape;
-mod term;
-mod xcheck;
+use vcheck::{exec, gen, minimize, props, rows, runner, term};
 
 use std::path::PathBuf;
 
@@ -121,8 +111,12 @@ fn main() {
         "describe" => runner::describe_main(prop.as_ref(), &PathBuf::from(&args[3])),
         "replay" => {
             let quiet = args.iter().any(|a| a == "--quiet");
-            runner::replay_main(prop.as_ref(), &PathBuf::from(&args[3]), quiet)
+            // a replay file found by a raw decoder of the coverage-guided tier names it
+            let dec = std::fs::read_to_string(&args[3]).ok().and_then(|s| serde_json::from_str::<serde_json::Value>(&s).ok()).and_then(|v| v["decoder"].as_str().map(|s| s.to_string()));
+            let p2 = dec.and_then(|d| props::by_id(&d)).unwrap_or(prop);
+            runner::replay_main(p2.as_ref(), &PathBuf::from(&args[3]), quiet)
         }
+        "shrink" => runner::shrink_main(prop.as_ref(), &PathBuf::from(&args[3])),
         _ => 2,
     };
     std::process::exit(code);
